@@ -106,6 +106,12 @@ def gen_valid(rng, quick=True, seed_corpus=True):
             make_stream(w, blocks, rng.randint(1, 9), rng)
         data = w.bytes()
         out.append(Case('v4-concat-%d' % k, data, 'concat', w.fields))
+    # a later stream with a larger block than the first stream's level allows
+    # (each stream has its own limit): level 1 then level 9 with a 150 kB block
+    bigp = fix_no_runs(bytes(rng.randrange(200) for _ in range(150000)))
+    s1, _ = simple_file([b'first stream, level one'], 1, rng)
+    s9, _ = simple_file([b''], 9, rng, pre_rle=bigp)
+    out.append(Case('v4-level-1-then-9', s1 + s9, 'concat-levels'))
     base, w = simple_file([b'hello hello hello'], 5, rng)
     for j, tr in enumerate([b'\0', b'x', b'BZ', b'BZh', b'BZh0junk', b'BZh:',
                             b'bZh9', b'BZH9' + b'\0' * 20, b'B', b'\xff' * 3,
@@ -126,6 +132,19 @@ def gen_valid(rng, quick=True, seed_corpus=True):
     data, w = simple_file([bytes(range(60)) * 3], 9, rng, ntables=2,
                           random_tables=True, deep=True)
     out.append(Case('v6-deep', data, 'long-codes'))
+    # groups that cost the full 1000 bits (fast path needs all 32 words),
+    # at every bit alignment (one surplus selector = one bit)
+    for ex in (range(0, 32, 4) if quick else range(32)):
+        w = BitWriter()
+        w.put(8, 0x42)
+        w.put(8, 0x5A)
+        w.put(8, 0x68)
+        w.put(8, 0x39)
+        info = B.worst_case_block(w, 24 if quick else 60, extra_selectors=ex)
+        w.put(48, B.EOS_MAGIC)
+        w.put(32, B.combine(0, info['crc']))
+        w.align()
+        out.append(Case('v9-worst-%d' % ex, w.bytes(), 'worst-case-groups'))
     # randomised blocks around and above the 617 threshold
     for n in [1, 616, 617, 618, 619, 1238, 3000]:
         p = bytes(rng.randrange(256) for _ in range(n))
@@ -261,6 +280,13 @@ def gen_malformed(rng, quick=True):
         kw = {'crc': 0} if n > 100000 else {}
         data, w = simple_file([b''], 1, rng, pre_rle=b'\0' * n, **kw)
         out.append(Case('m-zero-' + nm, data, 'capacity:' + nm))
+    # a later stream declaring level 1 with a block that only fits level 9
+    bigp = fix_no_runs(bytes(rng.randrange(200) for _ in range(150000)))
+    s9a, _ = simple_file([b'first stream, level nine'], 9, rng)
+    s1b, _ = simple_file([b''], 9, rng, pre_rle=bigp)
+    s1b = s1b[:3] + b'1' + s1b[4:]
+    out.append(Case('m-level-9-then-1-overfull', s9a + s1b,
+                    'concat-levels-overfull'))
     # too few selectors for the symbols present -> unterminated block
     wtmp = BitWriter()
     pl = bytes(rng.randrange(7) for _ in range(400))
